@@ -109,7 +109,7 @@ func (c12) Gen(tier string, seed int64, emit0 func([]Ev)) {
 		n = 150000
 	}
 	for i := 0; i < n; i++ {
-		emit([]Ev{{"op": "decode", "bytes": B(c12Bytes(r, i%2 == 0))}})
+		emit([]Ev{{"op": "decode", "bytes": B(c12Bytes(r, i%2 == 0)), "lenient": false}})
 	}
 	flagOps := []string{"SetFragmentFlag", "SetSegmentFlag", "SetSapFlag", "SetGroupingFlag", "SetTimeFlag", "SetExtensionFlag", "SetDiscOrConcealment", "SetPartitionFlag"}
 	for i := 0; i < n/3; i++ {
@@ -174,6 +174,20 @@ func c12RandInstant(r *rand.Rand) (uint64, int) {
 		s = lo + uint64(r.Int63n(int64(hi-lo)))
 	}
 	return s, r.Intn(1000000000)
+}
+
+// GenRows: byte strings kept by the coverage-guided fuzzer (FuzzC12); judged when Ebp!Parse accepts them.
+func (c12) GenRows(rows []Ev, tier string, seed int64, emit func([]Ev)) {
+	for _, row := range rows {
+		in := GB(row["in"])
+		if len(in) > 300 {
+			in = in[:300]
+		}
+		if in == nil {
+			in = []byte{}
+		}
+		emit([]Ev{{"op": "decode", "bytes": B(in), "lenient": true}})
+	}
 }
 
 func (c12) Exec(h []Ev) []Ev {
